@@ -238,7 +238,9 @@ impl<T: MomTropFloat> SquareMatrix<T> {
                 println!("error: {:?}", error);
             }
 
-            if error > error.from_f64(tolerance) {
+            // `!(error <= tol)` rather than `error > tol`: a NaN error must be rejected too
+            #[allow(clippy::neg_cmp_op_on_partial_ord)]
+            if !(error <= error.from_f64(tolerance)) {
                 if settings.print_debug_info {
                     println!("Inversion unstable");
                 }
